@@ -1292,3 +1292,145 @@ def _disc_unit(modname, clsname, pathkey):
 DISC = [_disc_unit('taurex.opacity.pickleopacity', 'PickleOpacity', 'xsec_path'), _disc_unit('taurex.opacity.exotransmit', 'ExoTransmitOpacity', 'xsec_path'),
         _disc_unit('taurex.opacity.ktables.picklektable', 'PickleKTable', 'ktable_path'), _disc_unit('taurex.opacity.ktables.hdfktable', 'HDF5KTable', 'ktable_path'),
         _disc_unit('taurex.opacity.hdf5opacity', 'HDF5Opacity', 'xsec_path')]
+
+
+# ------------------------------------------------------------------ ExoTransmitOpacity._load_exo_transmit: the text reader
+# File layout (Exo-Transmit): line 0 = temperatures, line 1 = pressures [bar]; then for every wavelength [m] one line holding
+# that wavelength alone followed by one line per pressure holding the pressure and one cross-section [m2] per temperature.
+_EX_ATTRS = ('_temperature_grid', '_pressure_grid', '_min_pressure', '_max_pressure', '_min_temperature', '_max_temperature', '_wavenumber_grid', '_xsec_grid')
+
+
+def _ex_sizes(c):
+    fx = c.fixed if c.mode != 'conc' else c.values
+    return fx['NT'], fx['NP'], fx['W']
+
+
+def _ex_params(c):
+    NT, NP, W = _ex_sizes(c)
+    return dict(self=ObjSpec('ExoTransmitOpacity', **{a: None for a in _EX_ATTRS}), filename='xsec/opacH2O.dat',
+                _file=dict(T=c.array('T', (NT,)), P=c.array('P', (NP,)), WL=c.array('WL', (W,)), X=c.array('X', (W, NP, NT)), PC=c.array('PC', (W, NP))))
+
+
+def _ex_lines(fx):
+    """the kind of every line of the file: ('T',), ('P',), ('wl', k), ('row', k, p)"""
+    NT, NP, W = fx['NT'], fx['NP'], fx['W']
+    out = [('T',), ('P',)]
+    for k in range(W):
+        out.append(('wl', k))
+        out += [('row', k, p) for p in range(NP)]
+    return out
+
+
+def _h_ex_readlines(ex, st, o, args, kwargs, node):
+    _ev(st, 'readlines', o.ident)
+    return st.alloc(ex.c, PyList([AbsObj('Line', kind, {}) for kind in _ex_lines(ex.c.fixed)]))
+
+
+def _h_ex_split(ex, st, o, args, kwargs, node):
+    fx = ex.c.fixed
+    kind = o.ident
+    n = {'T': fx['NT'], 'P': fx['NP'], 'wl': 1, 'row': 1 + fx['NT']}[kind[0]]
+    return st.alloc(ex.c, PyList([AbsObj('Tok', kind + (j,), {}) for j in range(n)]))
+
+
+def _h_ex_float(ex, st, args, kwargs, node):
+    """float(token): the number written at that place of the file"""
+    from pyvc import lib
+    t = args[0]
+    if not isinstance(t, AbsObj):
+        return lib.HANDLERS['builtins.float'](ex, st, args, kwargs, node)
+    f = st.get(st.env['_file']).items
+    A = lambda name: lib.arr(ex, st, f[name])
+    k = t.ident
+    if k[0] == 'T':
+        return A('T').elem((k[1],))
+    if k[0] == 'P':
+        return A('P').elem((k[1],))
+    if k[0] == 'wl':
+        return A('WL').elem((k[1],))
+    _, w, p, j = k
+    return A('PC').elem((w, p)) if j == 0 else A('X').elem((w, p, j - 1))
+
+
+def _ex_pre(c, v):
+    f = v._file
+    W = c.Len(f['WL'])
+    return {'wavelengths_positive_and_distinct': c.And(c.Forall(0, W, lambda i: f['WL'][i] > 0),
+                                                        c.Forall(0, W, lambda i: c.Forall(0, W, lambda j: c.Implies(i < j, f['WL'][i] != f['WL'][j]))))}
+
+
+def _ex_post(c, v0, v1, r):
+    f, s = v0._file, v1.self
+    NT, NP, W = _ex_sizes(c)
+    d = {'temperatures_are_the_first_line': c.And(c.Len(s._temperature_grid) == NT, c.Forall(0, NT, lambda i: c.Eq(s._temperature_grid[i], f['T'][i]))),
+         'pressures_are_the_second_line_converted_from_bar_to_pascal': c.And(c.Len(s._pressure_grid) == NP,
+                                                                               c.Forall(0, NP, lambda i: c.Eq(s._pressure_grid[i], f['P'][i] * 1e5))),
+         'one_wavenumber_per_wavelength_block': c.Len(s._wavenumber_grid) == W,
+         'wavenumbers_ascending': c.Forall(0, W - 1, lambda i: s._wavenumber_grid[i] <= s._wavenumber_grid[i + 1])}
+    if c.mode == 'conc':
+        import numpy as np
+        wl = np.array(f['WL'], dtype=float)
+        order = np.argsort(0.01 / wl)
+        X = np.array(f['X'], dtype=float)
+        d['wavenumbers_are_one_hundredth_over_the_wavelengths'] = bool(np.allclose(np.asarray(s._wavenumber_grid), (0.01 / wl)[order], rtol=1e-12))
+        want = np.transpose(X[order], (1, 2, 0)) * 10000
+        d['cross_sections_follow_their_wavelength_in_cm2'] = bool(np.asarray(s._xsec_grid).shape == want.shape and np.allclose(np.asarray(s._xsec_grid), want, rtol=1e-9, atol=1e-55))
+        return d
+    pf = c.last_perm[0]
+    d['wavenumbers_are_one_hundredth_over_the_wavelengths'] = c.Forall(0, W, lambda k: c.Eq(s._wavenumber_grid[k] * f['WL'][pf(k)], 10000 * 1e-6))
+    d['cross_sections_follow_their_wavelength_in_cm2'] = c.And(*[c.Forall(0, W, lambda k, p=p, t=t: c.Eq(s._xsec_grid[p, t, k], (f['X'][pf(k), p, t] + 1e-60) * 10000))
+                                                                 for p in range(NP) for t in range(NT)])
+    return d
+
+
+def _ex_native(c, p):
+    import os
+    import numpy as np
+    from taurex.opacity.exotransmit import ExoTransmitOpacity
+    f = p['_file']
+    here = os.path.dirname(os.path.dirname(os.path.abspath(__file__)))
+    base = os.path.join(here, '.cache', 'c14', 'xsec')
+    os.makedirs(base, exist_ok=True)
+    path = os.path.join(base, 'opacH2O_%d.dat' % os.getpid())
+    with open(path, 'w') as fh:
+        fh.write(' '.join(repr(float(x)) for x in f['T']) + '\n')
+        fh.write(' '.join(repr(float(x)) for x in f['P']) + '\n')
+        for k, wl in enumerate(f['WL']):
+            fh.write(repr(float(wl)) + '\n')
+            for q in range(len(f['P'])):
+                fh.write(' '.join([repr(float(f['PC'][k][q]))] + [repr(float(x)) for x in f['X'][k][q]]) + '\n')
+    try:
+        o = ExoTransmitOpacity.__new__(ExoTransmitOpacity)
+        for nm in ('debug', 'info', 'warning', 'error', 'critical'):
+            setattr(o, nm, lambda *a, **k: None)
+        o._load_exo_transmit(path)
+    finally:
+        os.remove(path)
+    s = dict(p['self'], _temperature_grid=np.asarray(o._temperature_grid), _pressure_grid=np.asarray(o._pressure_grid),
+             _wavenumber_grid=np.asarray(o._wavenumber_grid), _xsec_grid=np.asarray(o._xsec_grid))
+    return None, dict(p, self=s)
+
+
+_EX_CASES = [dict(NT=a, NP=b, W=w) for a, b, w in ((1, 1, 1), (2, 1, 2), (2, 2, 2), (3, 2, 3))]
+
+
+def _ex_gen(rng):
+    cs = rng.choice(_EX_CASES)
+    NT, NP, W = cs['NT'], cs['NP'], cs['W']
+    wl = [10 ** rng.uniform(-7, -4) for _ in range(W)]
+    if rng.random() < 0.6:
+        wl.sort()
+    return dict(cs, T=sorted(rng.uniform(100, 3000) for _ in range(NT)), P=sorted(10 ** rng.uniform(-6, 2) for _ in range(NP)), WL=wl,
+                X=[[[10 ** rng.uniform(-30, -20) for _ in range(NT)] for _ in range(NP)] for _ in range(W)],
+                PC=[[10 ** rng.uniform(-6, 2) for _ in range(NP)] for _ in range(W)])
+
+
+EXO = Unit('C14', 'taurex.opacity.exotransmit:ExoTransmitOpacity._load_exo_transmit', _ex_params, pre=_ex_pre, post=_ex_post, cases=_EX_CASES, bounds=[{}],
+           abstract={'call:open': _h_open, 'File.readlines': _h_ex_readlines, 'Line.split': _h_ex_split, 'call:float': _h_ex_float},
+           frame_attrs=[('self', a) for a in _EX_ATTRS], inline=['pressureGrid', 'temperatureGrid', 'wavenumberGrid'], native=_ex_native, gen=_ex_gen,
+           safety=('index',), short='ExoTransmitOpacity._load_exo_transmit',
+           doc='the Exo-Transmit text reader (enumerated table shapes, symbolic numbers): temperatures = first line, pressures = second line bar -> '
+               'pascal, one wavenumber per wavelength block = 0.01 / wavelength[m], sorted ascending, and the cross-section of pressure row p, '
+               'temperature column t of that block (first column of a row = its pressure, skipped) times 10000 [m2 -> cm2] at the place of its '
+               'own wavenumber after sorting; the reader adds 1e-60 to every value (recorded: the stored table differs from the file by that '
+               'amount); tokenising abstract: float(token) = the number written there')
